@@ -207,7 +207,45 @@ fn mon_c04(snap: &Snap, workers: usize, limit: usize, armed: &mut BTreeMap<Strin
     let mut all_avail = true; // at construction every worker is available
     let mut window: Vec<(usize, usize)> = vec![]; // (conn, worker) while all_avail holds
     let mut bit_clear: BTreeMap<usize, bool> = BTreeMap::new();
+    let mut failed_in_turn: Vec<usize> = vec![];
+    let mut forced_onto: Vec<usize> = vec![];
     for (step, _, r) in &snap.log {
+        // connections of a dead worker no longer belong to the worker index that is reused by its replacement
+        if let Rec::WorkerGone { slot } = r {
+            let gone: Vec<usize> = snap.log.iter().filter_map(|(_, _, x)| if let Rec::Call { conn: Some(c), slot: s, .. } = x { (s == slot).then_some(*c) } else { None }).collect();
+            for c in gone {
+                ip.remove(c);
+            }
+            if let Some(ws) = snap.workers.get(*slot) {
+                // still queued ones die with it too
+                let q: Vec<usize> = ip.by_worker.get(&ws.idx).cloned().unwrap_or_default();
+                for c in q {
+                    ip.remove(c);
+                }
+            }
+        }
+        if let Rec::AcceptQueueBefore(_) = r {
+            failed_in_turn.clear();
+        }
+        if let Rec::DispatchFailed { conn: Some(c) } = r {
+            failed_in_turn.push(*c);
+        }
+        if let Rec::Dispatch { conn: Some(c), worker, .. } = r {
+            let before = ip.count(*worker);
+            if failed_in_turn.contains(c) && bit_clear.get(worker) == Some(&true) {
+                // a connection whose first target was dead is forced onto a survivor that the accept
+                // loop had marked unavailable (C08's re-routing)
+                forced_onto.push(*worker);
+            }
+            if before >= limit && !failed_in_turn.contains(c) {
+                let cause = if forced_onto.contains(worker) { ":after-forced-reroute-to-a-worker-marked-unavailable" } else { "" };
+                out.push((
+                    format!("C04:dispatch-to-saturated-worker{cause}"),
+                    format!("step {step}: connection {c} dispatched to worker {worker}, which already has {before} connections in progress (limit {limit}) and has not released one{}", if cause.is_empty() { "" } else { " (earlier in this history a connection whose first target was dead was force-sent to this worker while it was marked unavailable; a WorkerAvailable notification that was already queued then marked it available again)" }),
+                ));
+                break;
+            }
+        }
         ip.apply(r);
         match r {
             Rec::AcceptState { avail, .. } => {
@@ -752,10 +790,26 @@ fn specs_for(prop: &'static str, tier: Tier) -> Vec<SpecImpl> {
                 v.push(mk(cfg(w, &[Uds], l), Bounds { connects: n, nested, ..Default::default() }));
             }
             v.push(mk(cfg(1, &[Tcp], 1), Bounds { connects: 3, nested: 1, ..Default::default() }));
+            // two listeners: a connection may wait on either of them while the workers are saturated
+            v.push(mk(cfg(1, &[Uds, Uds], 1), Bounds { connects: 3, connect_listeners: vec![0, 1], nested: 0, ..Default::default() }));
+            // completions while paused: the notification must not be lost
+            v.push(mk(cfg(1, &[Uds], 1), Bounds { connects: 3, cmds: vec![Ev::Pause, Ev::Resume], max_cmds: 2, ..Default::default() }));
+            if !q {
+                v.push(mk(cfg(2, &[Uds, Tcp], 1), Bounds { connects: 4, connect_listeners: vec![0, 1], nested: 1, ..Default::default() }));
+                v.push(mk(cfg(2, &[Uds], 2), Bounds { connects: 4, cmds: vec![Ev::Pause, Ev::Resume], max_cmds: 3, ..Default::default() }));
+                v.push(mk(cfg(1, &[Uds, Uds], 2), Bounds { connects: 4, connect_listeners: vec![0, 1], cmds: vec![Ev::Pause, Ev::Resume], max_cmds: 2, ..Default::default() }));
+            }
         }
         "C02" => {
-            for (w, l, n, nested) in if q { vec![(1, 1, 3, 1), (1, 2, 4, 1), (2, 1, 4, 1), (1, 3, 5, 0)] } else { vec![(1, 1, 4, 2), (1, 2, 5, 2), (1, 3, 6, 1), (1, 4, 6, 1), (2, 1, 5, 2), (2, 2, 6, 1), (3, 1, 5, 1), (3, 2, 7, 0)] } {
+            for (w, l, n, nested) in if q { vec![(1, 1, 3, 1), (1, 2, 5, 1), (2, 1, 4, 1), (1, 3, 5, 0)] } else { vec![(1, 1, 4, 2), (1, 2, 5, 2), (1, 3, 6, 1), (1, 4, 6, 1), (2, 1, 5, 2), (2, 2, 6, 1), (3, 1, 5, 1), (3, 2, 7, 0)] } {
                 v.push(mk(cfg(w, &[Uds], l), Bounds { connects: n, nested, ..Default::default() }));
+            }
+            // pause / resume must not make a saturated worker look available
+            v.push(mk(cfg(1, &[Uds], 1), Bounds { connects: 3, cmds: vec![Ev::Pause, Ev::Resume], max_cmds: 2, ..Default::default() }));
+            v.push(mk(cfg(2, &[Uds], 1), Bounds { connects: 4, cmds: vec![Ev::Pause, Ev::Resume], max_cmds: 2, ..Default::default() }));
+            if !q {
+                v.push(mk(cfg(1, &[Uds], 2), Bounds { connects: 5, cmds: vec![Ev::Pause, Ev::Resume], max_cmds: 3, ..Default::default() }));
+                v.push(mk(cfg(2, &[Uds, Tcp], 2), Bounds { connects: 5, connect_listeners: vec![0, 1], cmds: vec![Ev::Pause, Ev::Resume], max_cmds: 2, ..Default::default() }));
             }
         }
         "C01" => {
@@ -778,6 +832,12 @@ fn specs_for(prop: &'static str, tier: Tier) -> Vec<SpecImpl> {
         "C04" => {
             for (w, l, n) in if q { vec![(2, 2, 4), (3, 1, 4), (3, 2, 5)] } else { vec![(1, 1, 3), (2, 1, 5), (2, 2, 6), (2, 3, 6), (3, 1, 5), (3, 2, 6), (3, 3, 6), (4, 1, 5), (4, 2, 6)] } {
                 v.push(mk(cfg(w, &[Uds], l), Bounds { connects: n, ..Default::default() }));
+            }
+            // rotation after a worker was replaced (handle order changes)
+            v.push(mk(cfg(2, &[Uds], 1), Bounds { connects: 4, kills: 1, ..Default::default() }));
+            if !q {
+                v.push(mk(cfg(3, &[Uds], 1), Bounds { connects: 4, kills: 1, ..Default::default() }));
+                v.push(mk(cfg(2, &[Uds], 2), Bounds { connects: 5, kills: 1, ..Default::default() }));
             }
         }
 
@@ -805,6 +865,8 @@ fn specs_for(prop: &'static str, tier: Tier) -> Vec<SpecImpl> {
             if q {
                 v.push(mk(cfg(1, &[Uds], 2), Bounds { connects: 2, cmds: stops.clone(), max_cmds: 2, advances: vec![1000], max_advances: 4, drop_stop: true, ..Default::default() }));
                 v.push(mk(cfg(2, &[Uds], 1), Bounds { connects: 2, cmds: vec![Ev::Stop(true), Ev::Signal(2), Ev::Signal(15)], max_cmds: 1, advances: vec![1000], max_advances: 4, ..Default::default() }));
+                // the accept loop exits (closing the workers' channels) before the workers are told to stop
+                v.push(mk(cfg(1, &[Uds], 2), Bounds { connects: 1, cmds: vec![Ev::Stop(true)], max_cmds: 1, advances: vec![1000], max_advances: 3, nested: 2, ..Default::default() }));
                 // stop racing new connections and late availability notifications
                 v.push(mk(cfg(2, &[Uds], 1), Bounds { connects: 3, cmds: vec![Ev::Stop(true)], max_cmds: 1, advances: vec![1000], max_advances: 1, ..Default::default() }));
                 v.push(mk(cfg(1, &[Tcp], 1), Bounds { connects: 2, cmds: vec![Ev::Pause, Ev::Stop(true), Ev::Stop(false)], max_cmds: 2, advances: vec![1000], max_advances: 3, ..Default::default() }));
@@ -845,6 +907,71 @@ fn specs_for(prop: &'static str, tier: Tier) -> Vec<SpecImpl> {
     v
 }
 
+/// C04(b): the real 512-bit availability set against `[bool; 512]`, for every initial set in
+/// {empty, full, each single bit}, every index and both values; indices >= 512 must panic.
+fn availability_differential(rep: &mut Report) -> u64 {
+    use actix_server::verif::AvailabilityProbe;
+    let mut ops = 0u64;
+    let mut bad: Option<String> = None;
+    let mut inits: Vec<Option<usize>> = vec![None, Some(usize::MAX)];
+    inits.extend((0..512).map(Some));
+    let name = |init: Option<usize>| match init {
+        None => "empty".to_string(),
+        Some(usize::MAX) => "all 512 set".to_string(),
+        Some(b) => format!("only bit {b}"),
+    };
+    'outer: for init in inits {
+        for i in 0..512usize {
+            for v in [true, false] {
+                let mut real = AvailabilityProbe::default();
+                let mut model = [false; 512];
+                match init {
+                    None => {}
+                    Some(usize::MAX) => {
+                        for j in 0..512 {
+                            real.set_available(j, true);
+                            model[j] = true;
+                        }
+                    }
+                    Some(b) => {
+                        real.set_available(b, true);
+                        model[b] = true;
+                    }
+                }
+                real.set_available(i, v);
+                model[i] = v;
+                ops += 1;
+                if real.available() != model.iter().any(|x| *x) {
+                    bad = Some(format!("initial set {}, set_available({i}, {v}): available() = {}, reference {}", name(init), real.available(), model.iter().any(|x| *x)));
+                    break 'outer;
+                }
+                for j in 0..512 {
+                    if real.get_available(j) != model[j] {
+                        bad = Some(format!("initial set {}, set_available({i}, {v}): get_available({j}) = {}, reference {}", name(init), real.get_available(j), model[j]));
+                        break 'outer;
+                    }
+                }
+            }
+        }
+    }
+    for idx in [512usize, 513, 1024, usize::MAX] {
+        ops += 1;
+        let r = mcutil::quiet_catch(|| {
+            let mut real = AvailabilityProbe::default();
+            real.set_available(idx, true);
+            real.get_available(idx)
+        });
+        if r.is_ok() && bad.is_none() {
+            bad = Some(format!("index {idx} is beyond the documented maximum of 512 workers and was accepted"));
+        }
+    }
+    if let Some(msg) = bad {
+        rep.violation(Violation { signature: "C04:availability-bitset".into(), summary: format!("availability tracking differs from the [bool; 512] reference: {msg}"), replay: json!({"engine": "srvmc", "kind": "availability-differential", "detail": msg}) });
+    }
+    rep.set("availability_differential_operations", ops);
+    ops
+}
+
 pub fn run(args: &Args) -> i32 {
     let prop: &'static str = match args.property.as_str() {
         "C01" => "C01",
@@ -861,8 +988,11 @@ pub fn run(args: &Args) -> i32 {
     if let Some(p) = &args.replay {
         return replay(args, prop, p, rep);
     }
+    if prop == "C04" {
+        availability_differential(&mut rep);
+    }
     let specs = specs_for(prop, args.tier);
-    let wall_cap = Duration::from_secs(args.opt_usize("wallcap", args.tier.pick(40, 1500)) as u64);
+    let wall_cap = Duration::from_secs(args.opt_usize("wallcap", args.tier.pick(120, 1800)) as u64);
     let per_spec_cap = wall_cap / specs.len().max(1) as u32;
     let mut total_states = 0;
     let mut total_tr = 0;
@@ -986,6 +1116,10 @@ fn parse_history(v: &serde_json::Value) -> Vec<Step> {
 
 fn replay(args: &Args, prop: &'static str, path: &std::path::Path, mut rep: Report) -> i32 {
     let r = mcutil::load_replay(path);
+    if r["kind"] == "availability-differential" {
+        availability_differential(&mut rep);
+        return rep.finish();
+    }
     let tier = if r["tier"] == "thorough" { Tier::Thorough } else { Tier::Quick };
     let specs = specs_for(prop, tier);
     let spec = &specs[r["spec_index"].as_u64().unwrap() as usize];
